@@ -41,6 +41,12 @@ def cfg_inputs(cfg):
                "Scaffold_1\t313\t345\t5\tW\tS6\t1\t33\t-\tPainted",
                "Scaffold_2\t1\t30\t1\tW\tS2\t1\t30\t-\tPainted\tX", "Scaffold_3\t1\t20\t1\tW\tS3\t1\t20\t+\tHaplotig",
                "Scaffold_4\t1\t24\t1\tW\tS4\t1\t24\t+\tContaminant"]
+    elif cfg == "cut":
+        # one contig cut into two pieces by the map; the pieces carry two tags besides Painted (so that cut fragments get several tags)
+        recs = {"S1": rec("S1", [90]), "S2": rec("S2", [40, "N10", 20])}
+        agp = ["# HiC MAP RESOLUTION: 1.000000 bp/texel",
+               "Scaffold_1\t1\t50\t1\tW\tS1\t1\t50\t+\tPainted\tX\tSingleton", "Scaffold_2\t1\t40\t1\tW\tS1\t51\t90\t-\tPainted\tW\tSingleton",
+               "Scaffold_3\t1\t70\t1\tW\tS2\t1\t70\t+"]
     else:  # twohap
         recs = {"HAP1_SCAFFOLD_1": rec("h1", [60]), "HAP2_SCAFFOLD_2": rec("h2", [55]), "HAP1_SCAFFOLD_3": rec("h3", [20]), "HAP2_SCAFFOLD_4": rec("h4", [18])}
         agp = ["# HiC MAP RESOLUTION: 1.000000 bp/texel",
